@@ -200,7 +200,12 @@ func (c *concReader) seek(offset int64, whence int, limit int64) (int64, error) 
 	if limit > c.decompressedSize {
 		limit = c.decompressedSize
 	}
-	c.posLimit = limit
+	if c.posLimit != limit {
+		// Any work-in-progress was requested for the old limit. The next Read
+		// call needs to tell the Manager about the new region of interest.
+		c.posLimit = limit
+		c.seekResolved = false
+	}
 
 	return pos, nil
 }
